@@ -83,6 +83,10 @@ EXPLANATION += (
     ' Round 11: every return of validate_h5ad follows the call of _validate_h5ad and returns its verdict (R-MUST/validation-runs).'
 )
 
+EXPLANATION += (
+    ' Round 13: a tiling loop over several arrays takes its extent from the array of the current turn (R-TILE/extent-of-the-array).'
+)
+
 RULE_TEXT = (
     "one obligation per effect root, per mutating helper call, per "
     "rejection point, per log conditional, per layer argument, per uns "
